@@ -3,6 +3,8 @@ package engines
 import (
 	"fmt"
 	"os"
+	"runtime"
+	"time"
 	"sort"
 	"strings"
 
@@ -61,7 +63,7 @@ func callObs(st *rig.Stack, o ops.Op) string {
 	case "stat", "list":
 		return observe(st, o)
 	case "hread":
-		h := st.Handles[o.H]
+		h := st.GetHandle(o.H)
 		if h == nil {
 			return "nohandle"
 		}
@@ -73,7 +75,7 @@ func callObs(st *rig.Stack, o ops.Op) string {
 		}
 		return fmt.Sprintf("%s|%v", rig.DataKey(buf[:n]), errClass(ignoreEOF(err)))
 	case "hreadall":
-		h := st.Handles[o.H]
+		h := st.GetHandle(o.H)
 		if h == nil {
 			return "nohandle"
 		}
@@ -580,3 +582,63 @@ func trimZeros(c []int) []int {
 }
 
 func shortHashS(s string) string { return hashKey(s)[:8] }
+
+// RaceBody runs a scenario with real goroutines and real locks (vsync in free mode). It is meant for the binary built
+// with -race: the race detector reports to stderr; this function only reports whether all threads finished.
+func RaceBody(env *Env, name string, iterations int) (finished int, stuck int, err error) {
+	scn := scenarioByName(name)
+	if scn == nil {
+		return 0, 0, fmt.Errorf("unknown scenario %s", name)
+	}
+	vsync.Install(nil)
+	for it := 0; it < iterations; it++ {
+		st, err := rig.NewStack(env.TempDir(), scn.Cfg, env.Keys)
+		if err != nil {
+			return finished, stuck, err
+		}
+		if err := st.Init(); err != nil {
+			return finished, stuck, err
+		}
+		for _, o := range scn.Setup {
+			_ = ops.ExecImpl(st, o)
+		}
+		done := make(chan struct{}, len(scn.Threads))
+		for _, prog := range scn.Threads {
+			prog := prog
+			go func() {
+				defer func() { _ = recover(); done <- struct{}{} }()
+				for _, o := range prog {
+					_ = callObs(st, o)
+					if it%2 == 1 {
+						runtimeGosched()
+					}
+				}
+			}()
+		}
+		ok := true
+		for range scn.Threads {
+			select {
+			case <-done:
+			case <-timeAfter(20):
+				ok = false
+			}
+		}
+		if !ok {
+			stuck++
+			continue // leaked on purpose; the deadlock itself is the scheduler's business
+		}
+		for _, h := range st.Handles {
+			_ = h.F.Close()
+		}
+		vsync.WaitFree()
+		_ = rig.Walk(st.AFS, "/")
+		vsync.WaitFree()
+		st.Close()
+		env.CleanScratch()
+		finished++
+	}
+	return finished, stuck, nil
+}
+
+func runtimeGosched()                     { runtime.Gosched() }
+func timeAfter(sec int) <-chan time.Time { return time.After(time.Duration(sec) * time.Second) }
